@@ -103,6 +103,12 @@ def no_panic_oracle(case, trace):
     for t, r in trace:
         if "panic" in r and t in ("PARSE", "BIND", "NEW", "ITEM", "LEX", "DIG", "STATIC", "RENDER", "MULTI", "REPARSE"):
             yield "implementation panicked: %s %s" % (t, r[:300])
+        if t == "PRERUN":
+            m_ = re.match(r"items=(\d+) calls=(\d+)", r.strip())
+            if m_ and int(m_.group(2)) > int(m_.group(1)) + 1:
+                yield "an iterator that was dropped after %s items had made %s driver calls (more than one per item asked for plus the constructor's)" % (m_.group(1), m_.group(2))
+        if t == "SKIPRUN" and not r.startswith("same"):
+            yield "taking every second item with Iterator::nth(1) does not give items 1, 3, 5, ... of the plain run with the same driver calls: %s" % r[:300]
         if t == "APICHK" and not r.startswith("ok"):
             # the harness also calls the small public functions on values and signals (check / value / is_checked /
             # failing_outputs / is_input ... / Display / Binary) and compares them with each other and with the data
